@@ -340,7 +340,20 @@ type c02Trans struct {
 	problems []string
 }
 
+// c02Automaton: the explored product automaton (reachable product states in discovery order, their transitions
+// for every symbol of the alphabet, and the one-step evaluator for further probes)
+type c02Automaton struct {
+	order    []string
+	seen     map[string]c02State
+	trans    map[string]map[int]c02Trans
+	stepOnce func(s c02State, sym int) c02Trans
+	stepPos  token.Pos
+}
+
+var c02Auto *c02Automaton
+
 func runC02(c *Ctx) {
+	c02Auto = nil
 	dropOrphanHelpers(c)
 	debugDumpFuncs(c)
 	c.Clauses = []string{
@@ -571,6 +584,10 @@ func runC02(c *Ctx) {
 				m.callDecl(timerDecl, nil)
 			} else {
 				m.block(fr, timerBody.List)
+				// the callback's own deferred statements run when it returns (LIFO)
+				for j := len(fr.defers) - 1; j >= 0; j-- {
+					fr.defers[j]()
+				}
 			}
 			t.next = c02State{fields: m.fields}
 		} else {
@@ -666,6 +683,8 @@ func runC02(c *Ctx) {
 		}
 	}
 	c.info("product automaton: %d reachable states, alphabet %d (+timeout where armed); tracked fields %v", len(order), len(c02Alphabet), sortedKeys(trackedFields))
+	// (kept for the rules of c02k.go, which are evaluated on the same automaton)
+	c02Auto = &c02Automaton{order: order, seen: seen, trans: trans, stepOnce: stepOnce, stepPos: decls[step].Pos()}
 
 	stateFnNames := map[string]bool{}
 	// --- C02.a table comparison
